@@ -54,7 +54,7 @@ func buildStruct(fs []sfield) reflect.Type {
 			var parts []string
 			name := ""
 			if f.HasName {
-				name = string(bytesOf(f.Name))
+				name = cpsToString(f.Name)
 			}
 			parts = append(parts, name)
 			switch f.Casing {
@@ -235,7 +235,7 @@ func replayFld(args map[string]string) error {
 		}()
 		var order []orderEntry
 		for _, o := range orderRaw {
-			order = append(order, orderEntry{name: string(bytesOf(toInts(o[0]))), path: toInts(o[1]), str: o[2].(bool), kind: o[3].(string), viaptr: o[4].(bool),
+			order = append(order, orderEntry{name: cpsToString(toInts(o[0])), path: toInts(o[1]), str: o[2].(bool), kind: o[3].(string), viaptr: o[4].(bool),
 				oz: o[5].(bool), oe: o[6].(bool), ozOpt: o[7].(bool), oeOpt: o[8].(bool)})
 		}
 		// --- Marshal: members and their order for each value class
@@ -292,7 +292,7 @@ func replayFld(args map[string]string) error {
 		kindAt := map[int][2]any{}
 		allLeafPaths(S, nil, func(path []int, f sfield) { kindAt[pathCode(path)] = [2]any{f.Kind, f.Str} })
 		for _, p := range probesRaw {
-			name := string(bytesOf(toInts(p[0])))
+			name := cpsToString(toInts(p[0]))
 			for oi, insensitive := range []bool{false, true} {
 				res := p[1+oi].([]any)
 				kind := res[0].(string)
